@@ -131,6 +131,37 @@ def landAll (xs : List Int) : Int := xs.foldl land (-1)
 def lorAll (xs : List Int) : Int := xs.foldl lor 0
 def lxorAll (xs : List Int) : Int := xs.foldl lxor 0
 
+/-! ### integer-length, logcount, logbitp, evenp/oddp, signum, numerator/denominator -/
+
+/-- number of binary digits of a natural number (0 for 0) -/
+def bitLen (n : Nat) : Nat := if n = 0 then 0 else Nat.log2 n + 1
+
+/-- `(integer-length n)`: digits of `n`, of `-n-1` for a negative `n` (two's complement without sign) -/
+def integerLength (n : Int) : Int :=
+  if n < 0 then ((bitLen (-n - 1).toNat : Nat) : Int) else ((bitLen n.toNat : Nat) : Int)
+
+/-- number of 1 bits of a natural number -/
+def popCount (n : Nat) : Nat :=
+  if h : n = 0 then 0 else n % 2 + popCount (n / 2)
+decreasing_by omega
+
+/-- `(logcount n)`: the 1 bits of a non-negative integer, the 0 bits of a negative one -/
+def logcount (n : Int) : Int :=
+  if n < 0 then ((popCount (-n - 1).toNat : Nat) : Int) else ((popCount n.toNat : Nat) : Int)
+
+/-- `(logbitp i n)`: bit `i` of the infinite two's-complement expansion; a negative index is rejected -/
+def logbitp (i n : Int) : Except Err Bool :=
+  if i < 0 then .error .typeErr else .ok (testBit n i.toNat)
+
+def evenp (n : Int) : Bool := n % 2 == 0
+def oddp (n : Int) : Bool := n % 2 == 1
+
+/-- `(signum r)` of a rational: -1, 0 or 1 -/
+def signum (r : Rat) : Int := if r < 0 then -1 else if r = 0 then 0 else 1
+
+def numerator (r : Rat) : Int := r.num
+def denominator (r : Rat) : Int := (r.den : Int)
+
 /-! ### comparisons (on exact values; floats are decoded to exact rationals first) -/
 
 def chain (rel : Rat → Rat → Bool) : List Rat → Bool
